@@ -790,6 +790,8 @@ func checkExecLoop(c *Ctx) {
 func runC12(c *Ctx) {
 	c.Rule("R12e", "the hashes of the applied statements are owned by Execute: Revision.PartialHashes, Applied and Total are stored only in Executor.Execute (and the revision constructor): no other function clears or rewrites them behind its back", 2)
 	checkFieldOwners(c, "R12e", pMigrate, "Revision", []string{"PartialHashes", "Applied", "Total"}, map[string]bool{"migrate.(Executor).Execute": true})
+	c.Rule("R12g", ruleTextOptionalStmt, 1)
+	checkOptionalStmt(c, "R12g")
 	c.Rule("R12f", ruleTextSetRevisionAll, 2)
 	checkSetRevisionAll(c, "R12f")
 	c.Rule("R12d", "Executor.Pending decides whether the last revision is complete from Applied and Total alone, compared for (in)equality only: a file that now has fewer statements than were applied (Applied > Total) is still handed to Execute, which refuses it", 4)
